@@ -387,6 +387,23 @@ def reeval_raises(repo: Repo, rep):
         rep.ok("R-REEVAL-RAISES", outer, calls[0], "_re_eval checks the stored old value against the new argument")
     else:
         rep.violation("R-REEVAL-RAISES", outer, outer.node, "GenericValue._re_eval does not start the check from the stored old value", construct="entry")
+    # no class of the dispatch set (nor UndecidedValue) bypasses the generic check
+    gv = generic_class(repo)
+    for k in [op.cls for op in dispatch_ops(repo)] + [undecided_class(repo)]:
+        m2 = repo.lookup_method(k, "_re_eval")
+        if m2 is None:
+            rep.violation("R-REEVAL-RAISES", outer, outer.node, f"{k.name} has no _re_eval", construct=f"{k.name}._re_eval")
+        elif m2.cls == gv:
+            rep.ok("R-REEVAL-RAISES", m2, m2.node, f"{k.name}._re_eval is the generic check", site=f"{k.name}._re_eval -> GenericValue")
+        else:
+            cfg2 = cfg_of(m2)
+            sup = [nd for nd in cfg2.live for c in node_calls(nd) if isinstance(c.func, ast.Attribute) and c.func.attr == "_re_eval" and isinstance(c.func.value, ast.Call) and norm(c.func.value.func) == "super"]
+            from ..cfg import must_reach
+
+            if sup and must_reach(cfg2, cfg2.entry, sup, [cfg2.ret], skip_labels=("exc",)):
+                rep.ok("R-REEVAL-RAISES", m2, m2.node, f"{m2.qualname} runs the generic check on every path")
+            else:
+                rep.violation("R-REEVAL-RAISES", m2, m2.node, f"{m2.qualname} overrides re-evaluation without running the generic check on every path: a changed snapshot argument is accepted silently", construct=f"{k.name}._re_eval")
     dv = repo.cls("DictValue", "_snapshot/dict_value.py")
     m = dv.methods.get("_re_eval")
     if m is not None:
